@@ -8,6 +8,7 @@ COQ = os.path.join(VERIF, "coq")
 ALLOWED_AXIOMS = {
     "ClassicalDedekindReals.sig_forall_dec", "ClassicalDedekindReals.sig_not_dec",
     "FunctionalExtensionality.functional_extensionality_dep",
+    "Classical_Prop.classic",
 }
 FORBIDDEN = re.compile(r"\b(Admitted|admit|Axiom|Parameter|Conjecture|Admit Obligations|Unset Guard Checking|bypass_check|Unset Positivity|Unset Universe Checking)\b|-type-in-type|-impredicative-set")
 STMT = re.compile(r"^\s*(Theorem|Lemma|Example|Corollary|Fact)\s+([A-Za-z0-9_']+)")
@@ -138,13 +139,20 @@ def build(prop_files, timeout=1500, clean=False, jobs=16):
     # axioms reported by Print Assumptions
     axioms = set()
     closed = len(re.findall(r"Closed under the global context", log))
-    for m in re.finditer(r"Axioms:\n((?:.+\n)+?)(?=\S|\Z)", log):
-        pass
-    for block in re.findall(r"Axioms:\n((?:(?:[A-Za-z_][\w.']*\s*:.*|\s+.*)\n)+)", log):
-        for l in block.split("\n"):
-            m = re.match(r"^([A-Za-z_][\w.']*)\s*:", l)
-            if m:
+    lines = log.split("\n")
+    in_ax = False
+    for i, l in enumerate(lines):
+        if l.strip() == "Axioms:":
+            in_ax = True
+            continue
+        if in_ax:
+            m = re.match(r"^([A-Za-z_][\w.']*)\s*(:|$)", l)
+            if m and (m.group(2) == ":" or (i + 1 < len(lines) and re.match(r"^\s+:", lines[i + 1]))):
                 axioms.add(m.group(1))
+            elif l.startswith(" ") or l.startswith("\t"):
+                continue
+            else:
+                in_ax = False
     bad_axioms = sorted(a for a in axioms if a not in ALLOWED_AXIOMS)
     return {"obligations": obligations, "discharged": discharged, "failed": failed, "axioms": sorted(axioms),
             "bad_axioms": bad_axioms, "closed_count": closed, "log": log, "rc": rc, "wall": time.time() - t0,
